@@ -28,12 +28,221 @@ class NotInlinable(Exception):
     pass
 
 
-def load_inventory() -> Optional[Dict[str, List[str]]]:
+def load_inventory() -> Optional[dict]:
     try:
         with open(INVENTORY_PATH) as f:
             return json.load(f)
     except OSError:
         return None
+
+
+def function_profile(node) -> dict:
+    """what identifies a function besides its name: parameter names and the multiset of names it calls / reads as attributes"""
+    calls = []
+    for n in ast.walk(node):
+        if isinstance(n, ast.Call):
+            if isinstance(n.func, ast.Attribute):
+                calls.append(n.func.attr)
+            elif isinstance(n.func, ast.Name):
+                calls.append(n.func.id)
+        elif isinstance(n, ast.Attribute):
+            calls.append('.' + n.attr)
+    a = node.args
+    return {'params': [x.arg for x in a.posonlyargs + a.args + a.kwonlyargs], 'uses': sorted(calls)}
+
+
+def _hand_written_functions(sm):
+    for m in sm.modules.values():
+        if not (m.name.startswith('musicxml') or m.name == 'verysimpletree.tree'):
+            continue
+        for q, node, cls, parent in module_function_quals(m.tree):
+            yield m, q, node, cls, parent
+
+
+def field_profiles(sm) -> Dict[str, List[str]]:
+    """stored attribute name -> sorted list of the functions (file::qualname) that mention it, plus 'class:<file>' markers for
+    class-level bindings in hand-written base classes"""
+    stored = set()
+    loaded = set()
+    for m, q, node, cls, parent in _hand_written_functions(sm):
+        for n in ast.walk(node):
+            if isinstance(n, ast.Attribute) and isinstance(n.ctx, ast.Store):
+                stored.add(n.attr)
+            elif isinstance(n, ast.Attribute):
+                loaded.add(n.attr)
+    # class-level tables (e.g. _UNION, _SIMPLE_CONTENT) are bound in class bodies and only read through attributes
+    for m in sm.modules.values():
+        if not m.name.startswith('musicxml'):
+            continue
+        for st in m.tree.body:
+            if isinstance(st, ast.ClassDef):
+                for b in st.body:
+                    tg = b.targets if isinstance(b, ast.Assign) else [b.target] if isinstance(b, ast.AnnAssign) else []
+                    for t in tg:
+                        if isinstance(t, ast.Name) and t.id in loaded:
+                            stored.add(t.id)
+    out: Dict[str, set] = {}
+    for m, q, node, cls, parent in _hand_written_functions(sm):
+        if parent is not None:
+            continue
+        for n in ast.walk(node):
+            if isinstance(n, ast.Attribute) and n.attr in stored:
+                out.setdefault(n.attr, set()).add(f"{m.relpath}::{q}")
+    for m in sm.modules.values():
+        if not m.name.startswith('musicxml'):
+            continue
+        for st in m.tree.body:
+            if isinstance(st, ast.ClassDef):
+                for b in st.body:
+                    tg = b.targets if isinstance(b, ast.Assign) else [b.target] if isinstance(b, ast.AnnAssign) else []
+                    for t in tg:
+                        if isinstance(t, ast.Name) and t.id in stored:
+                            out.setdefault(t.id, set()).add(f"class:{m.relpath}")
+    return {k: sorted(v) for k, v in sorted(out.items())}
+
+
+class Renamer:
+    """Give renamed functions and fields their reference names back (program-wide alpha-renaming).  A function of the reference
+    inventory that no longer exists is matched with a function of the same scope that is not in the inventory, has the same
+    parameters and a similar profile of used names; a stored attribute name of the reference that no longer occurs anywhere is
+    matched with a new stored name mentioned by (nearly) the same functions.  Ambiguous or dissimilar candidates are left alone:
+    the rule that needs the anchor then stops with ANALYSIS-ERROR, it does not guess."""
+
+    def __init__(self, sm, inv):
+        self.sm, self.inv = sm, inv
+        self.function_renames: Dict[str, str] = {}
+        self.field_renames: Dict[str, str] = {}
+
+    @staticmethod
+    def _sim(a: List[str], b: List[str]) -> float:
+        from collections import Counter
+        ca, cb = Counter(a), Counter(b)
+        inter = sum((ca & cb).values())
+        union = sum((ca | cb).values())
+        return inter / union if union else 1.0
+
+    def detect_functions(self):
+        ref = self.inv.get('functions', {})
+        all_present_names = set()
+        for m, q, node, cls, parent in _hand_written_functions(self.sm):
+            all_present_names.add(node.name)
+        for m in self.sm.modules.values():
+            known = ref.get(m.relpath, {})
+            if not known:
+                continue
+            present = {q: (node, cls, parent) for q, node, cls, parent in module_function_quals(m.tree)}
+            missing = [q for q in known if q not in present and '<locals>' not in q]
+            new = [q for q in present if q not in known and '<locals>' not in q]
+            for q in missing:
+                scope = q.rsplit('.', 1)[0] if '.' in q else ''
+                old_name = q.split('.')[-1].replace('[setter]', '')
+                cands = []
+                for c in new:
+                    cscope = c.rsplit('.', 1)[0] if '.' in c else ''
+                    if cscope != scope or c.endswith('[setter]') != q.endswith('[setter]'):
+                        continue
+                    prof = function_profile(present[c][0])
+                    new_name = c.split('.')[-1].replace('[setter]', '')
+                    uses_ref = [u for u in known[q]['uses']]
+                    uses_new = [old_name if u == new_name else ('.' + old_name if u == '.' + new_name else u) for u in prof['uses']]
+                    if prof['params'] != known[q]['params']:
+                        continue
+                    cands.append((self._sim(uses_ref, uses_new), new_name))
+                cands.sort(reverse=True)
+                if cands and cands[0][0] >= 0.6 and (len(cands) == 1 or cands[0][0] - cands[1][0] >= 0.15):
+                    new_name = cands[0][1]
+                    if old_name in all_present_names and old_name not in [x.split('.')[-1] for x in missing]:
+                        pass
+                    if self.function_renames.get(new_name, old_name) == old_name:
+                        self.function_renames[new_name] = old_name
+
+    def detect_fields(self):
+        ref = self.inv.get('fields', {})
+        if not ref:
+            return
+        cur = field_profiles(self.sm)
+        gone = [f for f in ref if f not in cur and not self._mentioned(f)]
+        new = [f for f in cur if f not in ref]
+        fmap = {v: k for k, v in self.function_renames.items()}       # reference name -> current name
+        for f in gone:
+            want = set(ref[f])
+            cands = []
+            for g in new:
+                have = set()
+                for x in cur[g]:
+                    # map current function names back to reference names
+                    head, _, q = x.partition('::')
+                    if q:
+                        parts = q.split('.')
+                        parts[-1] = self.function_renames.get(parts[-1].replace('[setter]', ''), parts[-1].replace('[setter]', '')) + ('[setter]' if parts[-1].endswith('[setter]') else '')
+                        x = f"{head}::{'.'.join(parts)}"
+                    have.add(x)
+                inter, union = len(want & have), len(want | have)
+                cands.append((inter / union if union else 0.0, g))
+            cands.sort(reverse=True)
+            if cands and cands[0][0] >= 0.75 and (len(cands) == 1 or cands[0][0] - cands[1][0] >= 0.2):
+                self.field_renames[cands[0][1]] = f
+
+    def _mentioned(self, name) -> bool:
+        for m in self.sm.modules.values():
+            if not (m.name.startswith('musicxml') or m.name == 'verysimpletree.tree'):
+                continue
+            for n in ast.walk(m.tree):
+                if isinstance(n, ast.Attribute) and n.attr == name:
+                    return True
+        return False
+
+    def apply(self) -> Set[str]:
+        changed = set()
+        if not self.function_renames and not self.field_renames:
+            return changed
+        fr, fl = self.function_renames, self.field_renames
+        for m in self.sm.modules.values():
+            if not (m.name.startswith('musicxml') or m.name == 'verysimpletree.tree'):
+                continue
+            hit = False
+            for n in ast.walk(m.tree):
+                if isinstance(n, (ast.FunctionDef, ast.AsyncFunctionDef)) and n.name in fr:
+                    n.name = fr[n.name]
+                    hit = True
+                elif isinstance(n, ast.Attribute):
+                    if n.attr in fr:
+                        n.attr = fr[n.attr]
+                        hit = True
+                    elif n.attr in fl:
+                        n.attr = fl[n.attr]
+                        hit = True
+                elif isinstance(n, ast.Name):
+                    if n.id in fr:
+                        n.id = fr[n.id]
+                        hit = True
+                    elif n.id in fl and not isinstance(n.ctx, ast.Load) and False:
+                        pass
+                elif isinstance(n, ast.Constant) and isinstance(n.value, str):
+                    if n.value in fr:
+                        n.value = fr[n.value]
+                        hit = True
+                    elif n.value in fl:
+                        n.value = fl[n.value]
+                        hit = True
+                elif isinstance(n, ast.keyword) and n.arg in fl:
+                    pass
+            # class-level bindings of renamed fields
+            for st in m.tree.body:
+                if isinstance(st, ast.ClassDef):
+                    for b in st.body:
+                        tg = b.targets if isinstance(b, ast.Assign) else [b.target] if isinstance(b, ast.AnnAssign) else []
+                        for t in tg:
+                            if isinstance(t, ast.Name) and t.id in fl:
+                                t.id = fl[t.id]
+                                hit = True
+                    for n in ast.walk(st):
+                        if isinstance(n, ast.Name) and n.id in fl and isinstance(n.ctx, ast.Load):
+                            # a class body reading its own binding
+                            pass
+            if hit:
+                changed.add(m.name)
+        return changed
 
 
 def walk_local(node, include_root=True):
@@ -199,7 +408,7 @@ class Inliner:
         for m in sm.modules.values():
             fl = module_function_quals(m.tree)
             self.mod_funcs[m.name] = fl
-            known = set(self.inv.get(m.relpath, []))
+            known = set(self.inv.get('functions', {}).get(m.relpath, {}))
             for q, node, cls, parent in fl:
                 if q in known:
                     self.known_names.add(node.name)
@@ -563,6 +772,10 @@ class Canon:
             i = 0
             while i < len(lst):
                 st = lst[i]
+                if isinstance(st, ast.AnnAssign) and st.value is not None and isinstance(st.target, (ast.Name, ast.Attribute)):
+                    st = lst[i] = ast.copy_location(ast.Assign(targets=[st.target], value=st.value), st)
+                    self.counts['N'] = self.counts.get('N', 0) + 1
+                    changed = True
                 if isinstance(st, (ast.If, ast.While)):
                     t, n = strip_not(st.test)
                     if n:
@@ -771,10 +984,15 @@ def normalise(sm) -> dict:
     if inv is None:
         from .srcmodel import AnalysisError
         raise AnalysisError("reference/functions.json (inventory of the functions the rules were written against) is missing")
+    ren = Renamer(sm, inv)
+    ren.detect_functions()
+    ren.detect_fields()
+    renamed_modules = ren.apply()
     inl = Inliner(sm, inv)
+    inl.changed_modules |= renamed_modules
     inl.run()
     can = canonicalise(sm) if os.environ.get('MXSA_NO_CANON') != '1' else {'rewrites': {}, 'changed_modules': []}
     inl.changed_modules |= set(can['changed_modules'])
     new_funcs = sorted(f"{d[0].relpath}::{d[1]}" for ds in inl.new_defs.values() for d in ds)
     return {'enabled': True, 'functions_not_in_reference_inventory': new_funcs, 'inlined_calls': inl.log, 'calls_left_as_calls': inl.not_inlined,
-            'helpers_removed_after_inlining': getattr(inl, 'dropped', []), 'canonical_rewrites': can['rewrites'], 'changed_modules': sorted(inl.changed_modules)}
+            'helpers_removed_after_inlining': getattr(inl, 'dropped', []), 'canonical_rewrites': can['rewrites'], 'functions_renamed_back': ren.function_renames, 'fields_renamed_back': ren.field_renames, 'changed_modules': sorted(inl.changed_modules)}
